@@ -250,12 +250,20 @@ async def _run(case: dict, out: dict):
         out["consumed"] = list(disp.consumed)
         out["script_left"] = disp.script_left()
         log.append(("end",))
-        await runner.shutdown()
+        tt = runner._timer._task
+        if tt.done() and not tt.cancelled() and tt.exception() is not None:
+            out["timer_dead"] = repr(tt.exception())      # the runner's tick task died: it can never reconnect again
+        try:
+            await runner.shutdown()
+        except Exception as ex:  # noqa
+            out["shutdown_exc"] = repr(ex)
         runner._timer.stop()
         try:
             await runner._timer._task
         except asyncio.CancelledError:
             pass
+        except Exception as ex:  # noqa
+            out.setdefault("timer_dead", repr(ex))
         out["vtime"] = loop.time()
         out["keep"] = keep
     finally:
